@@ -113,6 +113,14 @@ var readVariants = []readParams{
 	{3, 64 * 1000, 128},
 	{4, 0, proto4.SectorSize / 2},   // half a sector: a one-hash proof
 	{5, proto4.SectorSize - 64, 64}, // the last leaf
+	// whole-sector reads (empty proof), of zero-tailed sectors and of a random one
+	{numSectors + 0, 0, proto4.SectorSize},
+	{numSectors + 1, 0, proto4.SectorSize},
+	{numSectors + 2, 0, proto4.SectorSize},
+	{6, 0, proto4.SectorSize},
+	// partial ranges that straddle / lie in the zero tail
+	{numSectors + 0, 512, 1024},
+	{numSectors + 1, proto4.SectorSize/2 - 4096, 8192},
 }
 
 func (e *env) hostRead(sector int, offset, length uint64) ([]byte, []types.Hash256) {
@@ -128,8 +136,11 @@ func newReadSession(e *env, c Case) *session {
 	s := &session{e: e, c: c}
 	root := e.roots[p.sector]
 	truth := e.sectors[p.sector][p.offset : p.offset+p.length]
+	whole := p.length == proto4.SectorSize
 	otherOff := p.offset + p.length
-	if otherOff+p.length > proto4.SectorSize {
+	if whole {
+		otherOff = 0
+	} else if otherOff+p.length > proto4.SectorSize {
 		otherOff = p.offset - p.length
 	}
 	type donor struct {
@@ -144,6 +155,27 @@ func newReadSession(e *env, c Case) *session {
 		"otherRange":            mk(p.sector, otherOff),
 		"otherRoot":             mk((p.sector+1)%numSectors, p.offset),
 		"swapFromOtherExchange": mk((p.sector+2)%numSectors, otherOff),
+	}
+	if whole {
+		// there is no other range of a whole sector: its two halves in the wrong order
+		h := proto4.SectorSize / 2
+		d := donors["otherRange"]
+		d.data = append(append([]byte(nil), truth[h:]...), truth[:h]...)
+		donors["otherRange"] = d
+	}
+	// where the host closes the stream early (DataLength honest): cutLeaf is leaf-aligned -- at the end
+	// of the sector's non-zero bytes if that falls inside the range, else in the middle of the range
+	cutLeaf := (p.length / 2) &^ 63
+	if z := nonZeroPrefix(p.sector); z > p.offset && z < p.offset+p.length {
+		cutLeaf = z - p.offset
+	}
+	cutMid := cutLeaf + 13
+	if cutMid >= p.length {
+		cutMid = p.length - 13
+	}
+	cuts := map[string]uint64{"cutLeaf": cutLeaf, "cutMid": cutMid, "cutFirstLeaf": 64, "cutLastLeaf": p.length - 64}
+	if p.length == 64 {
+		cuts["cutFirstLeaf"] = 32
 	}
 	var dataLen int
 	var dataOverride []byte
@@ -208,6 +240,17 @@ func newReadSession(e *env, c Case) *session {
 			return nil
 		}
 		// raw data
+		if f.Field == "Stream" {
+			// the host sends a prefix of the (possibly altered) data and closes the stream
+			k, ok := cuts[f.How]
+			if !ok {
+				return errUnknownFault
+			}
+			if uint64(len(*raw)) > k {
+				*raw = (*raw)[:k]
+			}
+			return nil
+		}
 		if f.Field != "Bytes" {
 			return errUnknownFault
 		}
@@ -232,8 +275,9 @@ func newReadSession(e *env, c Case) *session {
 		return nil
 	}
 	s.bound = func(any) (bool, map[string]bool) {
-		d := map[string]bool{"bytesEqualTruth": bytes.Equal(buf.Bytes(), truth)}
-		return d["bytesEqualTruth"], d
+		// delivered to the caller's writer == exactly the requested range: same length, same bytes
+		d := map[string]bool{"bytesEqualTruth": bytes.Equal(buf.Bytes(), truth), "deliveredRequestedLength": uint64(buf.Len()) == p.length}
+		return d["bytesEqualTruth"] && d["deliveredRequestedLength"], d
 	}
 	// the "All" fault of the first message also replaces the data that follows it
 	s.dataHook = func(raw []byte) []byte {
